@@ -76,6 +76,13 @@ func bbTable(r *rand.Rand, n int) Table {
 		} else {
 			row.V[6].S = pick(r, phraseDomain[4:])
 		}
+		// rows of the second flush (i >= 3n/5, see bbRun): one in six carries a value / an extra
+		// word that no row of the first file has - a reader that judged a block of the second
+		// file by a filter of the first would prune it
+		if i >= n*3/5 && r.IntN(6) == 0 {
+			row.V[5].S = fmt.Sprintf("t%d", r.IntN(4))
+			row.V[6].S += fmt.Sprintf(" late%d", r.IntN(3))
+		}
 		row.V[7].I = int64(r.IntN(10))
 		t.Rows = append(t.Rows, row)
 	}
@@ -253,6 +260,13 @@ func bbGenQueries(r *rand.Rand, t *Table, n int) []bbQuery {
 			cond = &Node{Op: "AND", L: pkb, R: &Node{Op: "AND", L: mk("ka", "=", Lit{Kind: tString, S: row.V[0].S}), R: ps}}
 		}
 		qs = append(qs, bbQuery{cond: cond, mode: "matchphrase"})
+	}
+	// words and values that only rows of the second file carry, asked for on their own
+	for k := 0; k < 4; k++ {
+		qs = append(qs, bbQuery{cond: mk("s", "MATCHPHRASE", Lit{Kind: tString, S: fmt.Sprintf("t%d", k)}), mode: "matchphrase"})
+		if k < 3 {
+			qs = append(qs, bbQuery{cond: mk("w", "MATCHPHRASE", Lit{Kind: tString, S: fmt.Sprintf("late%d", k)}), mode: "matchphrase"})
+		}
 	}
 	for len(qs) < n {
 		mode := "plain"
